@@ -311,12 +311,12 @@ PROPS = {
     "C34": {
         "explanation": "Bounded: PAGE_SIZE scaled to 256 bytes by the cfg hook; chain of <= 2 trunk pages; within that configuration every entry count, entry value and page byte is symbolic and the step contracts are inductive.",
         "level": "other",
-        "level_text": "Bounded stand-in for an inductive proof: inductive step contracts showing the freelist is a LIFO stack of released pages — for an ARBITRARY well-formed (Freelist, store) pair of each chain shape, allocate returns exactly the top of the stack (a previously released, not yet re-allocated page) or None iff empty, release(p) pushes p, free_count always equals the stack size (the reported free count is what allocations can return), the invariant is preserved, nothing else is modified (witness byte over both pages) and the file-header page 0 is never requested. All entry counts 0..=TRUNK_MAX_ENTRIES, all entries and all page bytes are symbolic. Bounds: the real code is compiled with PAGE_SIZE scaled to 256 bytes through the cfg hook (TRUNK_MAX_ENTRIES = 58 instead of 4090), and the chain has at most 2 trunk pages (2-page harness store). With 16 KiB pages one step obligation needs > 10 min / > 10 GB in CBMC (measured), which is why the scaled configuration is used.",
+        "level_text": "Bounded stand-in for an inductive proof: inductive step contracts showing the freelist is a LIFO stack of released pages — for an ARBITRARY well-formed (Freelist, store) pair of each chain shape, allocate returns exactly the top of the stack (a previously released, not yet re-allocated page) or None iff empty, release(p) pushes p, free_count always equals the stack size (the reported free count is what allocations can return), the invariant is preserved, nothing else is modified (witness byte over both pages) and the file-header page 0 is never requested. All entry counts 0..=TRUNK_MAX_ENTRIES, all entries and all page bytes are symbolic. Bounds: the real code is compiled with PAGE_SIZE scaled to 256 bytes through the cfg hook (TRUNK_MAX_ENTRIES = 58 instead of 4090), and the chain has at most 2 trunk pages (2-page harness store). With the shipped 16 KiB pages one step obligation needs 10-15 min and > 10 GB in CBMC, which is why the scaled configuration is used; the thorough tier additionally discharges the allocate step contract (shape head -> next) at the SHIPPED page size (TRUNK_MAX_ENTRIES = 4090, every count symbolic), the release step at that size exceeded 60 GB and is tier=manual.",
         "level_note": "Not a proof for the shipped constant: same source, PAGE_SIZE = 256 via cfg(kahflane_turdb_verif_small_pages); chain length <= 2 trunks. Precondition of release: the page is not currently in the freelist (caller obligation). In the entry case the released page number ranges over all u32 >= 3 (outside the harness store). Trusted: zerocopy ref_from_bytes/mut_from_bytes as compiled by Kani; harness-side Storage impl.",
         "technique": "Kani inductive invariant + per-operation step contracts over an arbitrary well-formed state (bounded: scaled page size, chain <= 2), frame by witness index, against the real Storage trait implemented by a harness-side page array",
         "kani_units": ["freelist"],
+        "mem_gb": 60,
         "harness_timeout": 1200,
-        "rustflags": "--cfg kahflane_turdb_verif_small_pages",
         
     },
     "C23": {
